@@ -193,6 +193,9 @@ func checkC01(w *World, c *Check, tier string) {
 				for _, st := range ws {
 					for _, g := range st.guards {
 						if !guardOnField(g, s, f.Index) {
+							if other := guardOnOtherField(g, s, f.Index); other != "" && g.side != sideNeutral {
+								gbad = fmt.Sprintf("%q is written only when another property (%s) is set/unset (%s): the property is dropped whenever that other one is absent", st.names, other, g.desc)
+							}
 							continue
 						}
 						if g.side == sideUnset {
@@ -200,6 +203,11 @@ func checkC01(w *World, c *Check, tier string) {
 						} else if g.signOnly {
 							gbad = fmt.Sprintf("sign-sensitive emptiness guard %s on %s (type %s): negative values are never written", g.desc, key, typeName(f.Type))
 						}
+					}
+				}
+				for _, st := range ws {
+					if len(st.condWrites) > 0 {
+						gbad = fmt.Sprintf("%q is written only depending on whether other properties %v were written before it (short-circuit on the accumulated result): the property is dropped for some combinations of set properties", st.names, st.condWrites)
 					}
 				}
 				if gbad != "" {
@@ -306,6 +314,119 @@ func checkC01(w *World, c *Check, tier string) {
 		}
 	}
 	checkScalarPairs(w, c, t, "C01.pair")
+	checkEmptinessPredicate(w, c, t)
+}
+
+// checkEmptinessPredicate: the decoder discards values its emptiness check (IsNotEmpty hook, initially NotEmpty)
+// judges empty. For a value without id and type to survive whenever it carries any property, the predicate of each
+// struct must read every tagged field that struct adds (Object: all), and must not test a signed field by sign.
+func checkEmptinessPredicate(w *World, c *Check, t *tables) {
+	root := w.Func("NotEmpty")
+	if g := w.Global("IsNotEmpty"); g != nil {
+		if a, ok := w.globalInits()[g]; ok && a.Fn != nil {
+			root = a.Fn
+		}
+	}
+	if root == nil {
+		c.bad("C01.empty", "anchor:NotEmpty", "-", "emptiness predicate not found")
+		return
+	}
+	disp := w.Func("JSONLoadItem")
+	if disp != nil {
+		used := false
+		for _, f := range w.Reach([]*ssa.Function{disp}, func(f *ssa.Function) bool { return f != disp && wireLeafType(w, f) != nil }) {
+			if f == root {
+				used = true
+			}
+		}
+		_ = used
+	}
+	pr := t.pr
+	reads := map[*types.Named]map[string]bool{}
+	signBad := map[string]string{}
+	for _, f := range w.Reach([]*ssa.Function{root}, nil) {
+		if f.Signature.Results().Len() != 1 {
+			continue
+		}
+		if b, ok := f.Signature.Results().At(0).Type().Underlying().(*types.Basic); !ok || b.Kind() != types.Bool {
+			continue
+		}
+		for _, p := range f.Params {
+			n := namedOf(p.Type())
+			if n == nil || !isItemStruct(w, n) {
+				continue
+			}
+			if _, isPtr := types.Unalias(p.Type()).(*types.Pointer); !isPtr {
+				continue
+			}
+			if reads[n] == nil {
+				reads[n] = map[string]bool{}
+			}
+			for _, b := range f.Blocks {
+				for _, in := range b.Instrs {
+					if fa, ok := in.(*ssa.FieldAddr); ok {
+						if fp, ok := pr.structPath(fa, 0); ok && len(fp.Idx) >= 1 && fp.Root == pr.canonicalRoot(p) {
+							reads[n][fp.Names[0]] = true
+						}
+					}
+					if bo, ok := in.(*ssa.BinOp); ok {
+						for _, g := range pr.classifyCond(bo, true) {
+							if g.signOnly {
+								for _, r := range g.refs {
+									if r.Root == pr.canonicalRoot(p) && len(r.Names) > 0 {
+										signBad[n.Obj().Name()+"."+r.Names[0]] = g.desc
+									}
+								}
+							}
+						}
+					}
+				}
+			}
+		}
+	}
+	c.floor("C01.empty", 30)
+	for _, s := range w.TaggedStructs() {
+		rd := reads[s.Named]
+		if rd == nil {
+			continue
+		}
+		// fields this struct adds on top of the largest prefix view that has its own predicate
+		start := 0
+		for _, v := range w.TaggedStructs() {
+			if v.Named != s.Named && isPrefixView(v.Named, s.Named) && reads[v.Named] != nil && len(v.Fields) > start {
+				start = len(v.Fields)
+			}
+		}
+		for _, f := range s.Fields[start:] {
+			if f.Term == "" {
+				continue
+			}
+			key := s.Name + "." + f.Name
+			switch {
+			case !rd[f.Name]:
+				c.bad("C01.empty", key, w.FuncPos(root), fmt.Sprintf("the emptiness check applied to decoded values never looks at %s: an embedded value without id and type that only carries %q is judged empty and dropped by the decoder", key, f.Term))
+			case signBad[key] != "":
+				c.bad("C01.empty", key, w.FuncPos(root), fmt.Sprintf("the emptiness check tests %s by sign (%s): a value that only carries a negative %q is judged empty and dropped by the decoder", key, signBad[key], f.Term))
+			default:
+				c.ok("C01.empty", key, w.FuncPos(root), "considered by the emptiness check")
+			}
+		}
+	}
+}
+
+// guardOnOtherField: the guard tests a different top-level field of the same struct value (and not the field itself).
+func guardOnOtherField(g guard, s *StructInfo, idx int) string {
+	other := ""
+	for _, r := range g.refs {
+		if len(r.Idx) == 0 || r.RootType == nil || !isPrefixView(r.RootType, s.Named) {
+			return ""
+		}
+		if r.Idx[0] == idx {
+			return ""
+		}
+		other = r.String()
+	}
+	return other
 }
 
 func guardOnField(g guard, s *StructInfo, idx int) bool {
@@ -370,6 +491,9 @@ func checkScalarPairs(w *World, c *Check, t *tables, rule string) {
 					bad = fmt.Sprintf("floats are written quoted (%q)", fm)
 				}
 			}
+			if p, found := floatPrecisionArg(f); found && p != -1 {
+				bad = fmt.Sprintf("floats are formatted with a fixed precision of %d digits instead of the shortest representation that reads back exactly (precision -1): values needing more digits change", p)
+			}
 			if bad != "" {
 				c.bad(rule, key, w.FuncPos(f), bad)
 			} else {
@@ -411,6 +535,37 @@ func checkScalarPairs(w *World, c *Check, t *tables, rule string) {
 		}
 	}
 	c.floor(rule, 3)
+}
+
+// floatPrecisionArg: the constant precision handed to strconv.FormatFloat / AppendFloat in f.
+func floatPrecisionArg(f *ssa.Function) (int64, bool) {
+	for _, b := range f.Blocks {
+		for _, in := range b.Instrs {
+			call, ok := in.(ssa.CallInstruction)
+			if !ok {
+				continue
+			}
+			cal := call.Common().StaticCallee()
+			if cal == nil || cal.Object() == nil || cal.Object().Pkg() == nil || cal.Object().Pkg().Path() != "strconv" {
+				continue
+			}
+			idx := -1
+			switch cal.Name() {
+			case "FormatFloat":
+				idx = 2
+			case "AppendFloat":
+				idx = 3
+			}
+			if idx < 0 || idx >= len(call.Common().Args) {
+				continue
+			}
+			if k, ok := call.Common().Args[idx].(*ssa.Const); ok && k.Value != nil {
+				return k.Int64(), true
+			}
+			return 0, true // non-constant precision: cannot be shown to be the shortest form
+		}
+	}
+	return 0, false
 }
 
 // formatCalls returns the constant format strings of fmt.Sprintf-style calls in f and the external callees.
